@@ -56,11 +56,24 @@ fn handle_client(stream: TcpStream, dbs: Arc<Databases>) {
     let (mut client, mut receiver) = Client::new_empty_and_receiver();
     writer.write_fmt(format_args!("ok \n")).unwrap();
     writer.flush().unwrap();
-    // Lives across the passes of the loop: on a non blocking socket read_line gives up (WouldBlock)
-    // in the middle of a line whose rest is still on its way and leaves the first part here
+    // Lives across the passes of the loop: on a non blocking socket the read gives up (WouldBlock)
+    // in the middle of a line whose rest is still on its way and leaves the first part here.
+    // As bytes: a segment can end in the middle of a multi byte character, which is not text yet
+    let mut line_bytes: Vec<u8> = Vec::new();
     let mut buf = String::new();
     loop {
-        let read_line = reader.read_line(&mut buf);
+        let read_line = reader.read_until(b'\n', &mut line_bytes).and_then(|n| {
+            match String::from_utf8(std::mem::take(&mut line_bytes)) {
+                Ok(line) => {
+                    buf = line;
+                    Ok(n)
+                }
+                Err(_) => Err(std::io::Error::new(
+                    std::io::ErrorKind::InvalidData,
+                    "stream did not contain valid UTF-8",
+                )),
+            }
+        });
         stream.set_nonblocking(true).unwrap();
         match read_line {
             Ok(_) => {
